@@ -171,6 +171,24 @@ def _metamorphic_case(rng, grid, data, shape, dx, x0, dim):
             k3, s3 = get_structure_factor(ScalarField(g3, data), smoothing=None)
             if np.max(np.abs(k3 * lam - k)) > 1e-12 * k.max() or np.max(np.abs(s3 - sf)) > 1e-14:
                 fails.append("wave numbers do not scale inversely with the physical size of the grid")
+            # the caller owns what is returned: scribbling over the returned arrays must not change later answers
+            # (same grid, another field; and a grid of the same shape and MEAN spacing with the spacings permuted)
+            k_keep, sf_keep = k.copy(), sf.copy()
+            k *= 3.0
+            k.sort()
+            sf[...] = -1.0
+            again = get_structure_factor(ScalarField(grid, data), smoothing=None)
+            if not np.array_equal(again[0], k_keep) or np.max(np.abs(again[1] - sf_keep)) > 1e-14:
+                fails.append("a second call on the same grid is affected by what the caller did to the arrays returned first")
+            k, sf = k_keep, sf_keep
+            base = (k, sf)
+            if dim > 1:
+                rot = list(range(1, dim)) + [0]
+                g4 = CartesianGrid([(0.0, shape[a] * dx[rot[a]]) for a in range(dim)], list(shape), periodic=True)
+                k4, _ = get_structure_factor(ScalarField(g4, data), smoothing=None)
+                ks4 = np.meshgrid(*[2 * np.pi * np.fft.fftfreq(shape[a], dx[rot[a]]) for a in range(dim)], indexing="ij")
+                if np.max(np.abs(k4 - np.sqrt(sum(x**2 for x in ks4)).ravel()[1:])) > 1e-12 * k4.max():
+                    fails.append("wave numbers of a grid with the same shape and permuted spacings are not its Fourier wave numbers")
             # ---- smoothed variant
             wn = np.sort(rng.uniform(k.min(), k.max(), 7))
             sm = float(0.3 * k.max())
@@ -200,6 +218,38 @@ def _metamorphic_case(rng, grid, data, shape, dx, x0, dim):
                 if np.max(np.abs(s2 - ss)) > 1e-9 * max(1e-3, np.abs(ss).max()):
                     fails.append(f"smoothed variant not invariant under {name}")
     return fails
+
+
+def large_grid_case(out):
+    """a grid with more than 2^16 modes (300 x 344, lamellar field + noise): the smoothed variant shares the invariances"""
+    from pde import CartesianGrid, ScalarField
+
+    from droplets.image_analysis import get_structure_factor
+
+    rng = np.random.default_rng(out.seed + 99)
+    shape, dx = (300, 344), (0.5, 0.25)
+    grid = CartesianGrid([(0.0, n * d) for n, d in zip(shape, dx)], list(shape), periodic=True)
+    x = grid.cell_coords
+    data = np.sin(2 * np.pi * 11 * x[..., 0] / (shape[0] * dx[0])) + 0.2 * rng.standard_normal(shape)
+    gt = CartesianGrid([(0.0, n * d) for n, d in zip(shape[::-1], dx[::-1])], list(shape[::-1]), periodic=True)
+    fails = []
+    with warnings.catch_warnings():
+        warnings.simplefilter("ignore")
+        k, sf = get_structure_factor(ScalarField(grid, data), smoothing=None)
+        wn = np.linspace(0.2 * k.max(), 0.8 * k.max(), 9)
+        wn[3] = 2 * np.pi * 11 / (shape[0] * dx[0])     # the lamellar peak itself
+        sm = 0.01 * k.max()
+        _, s0 = get_structure_factor(ScalarField(grid, data), smoothing=sm, wave_numbers=wn)
+        for name, g, d in (("permuting the axes together with the grid", gt, data.T),
+                           ("reflection", grid, data[::-1, :]), ("translation", grid, np.roll(data, 7, axis=1)),
+                           ("multiplication by a constant", grid, -3.0 * data)):
+            _, s1 = get_structure_factor(ScalarField(g, d), smoothing=sm, wave_numbers=wn)
+            if not np.all(np.isfinite(s1)) or np.max(np.abs(s1 - s0)) > 1e-9 * np.abs(s0).max():
+                fails.append(f"large grid: smoothed variant not invariant under {name}")
+    out.evaluations += 1
+    if fails:
+        out.violation({"large_grid": {"shape": list(shape), "dx": list(dx)}, "fails": fails})
+    out.parts["large_grid"] = {"shape": list(shape)}
 
 
 def run(out: core.Outcome) -> None:
@@ -242,6 +292,7 @@ def run(out: core.Outcome) -> None:
         for b in bad:
             out.violation(b)
     out.exhaustive = True
+    large_grid_case(out)
     out.explanation = out.rule
     out.assumptions = [
         "exact DFT only for axis lengths 1, 2, 4 (twiddle factors are powers of -i); other sizes via transformation laws, numpy's FFT as definition and Parseval",
